@@ -35,7 +35,7 @@ confirmed = r1.returncode != 0 and suite_ok and r3.returncode == 0
 print("demo with change:", r1.returncode, "| suite:", r2.stdout.strip(), "| demo without:", r3.returncode, "| confirmed:", confirmed)
 if not confirmed:
     sys.exit("NOT CONFIRMED")
-t = subprocess.run([str(VERIF / "tools/try_seed.py"), str(out / "patch.diff")], capture_output=True, text=True)
+t = subprocess.run([str(VERIF / "tools/try_seed.py"), str(out / "patch.diff")] + ([prop] if os.environ.get("KEEP_OWN_ONLY") else []), capture_output=True, text=True)  # KEEP_OWN_ONLY=1: own check only (detected_by then lists that check alone)
 print(t.stdout)
 detected = re.findall(r"^(C\d+): exit 1 (\[.*?\])", t.stdout, re.M)
 dst = VERIF / "seeded" / name
